@@ -1,5 +1,6 @@
 import McpModel.Base.Proto
 import McpModel.Negotiate.Model
+import McpModel.Negotiate.Peer
 /-!
 Driver for E4 (C07).  One record per cell of the configuration matrix:
 `connect <default|s<hex>> <mem|pipe|sse|stateful|stateless> <none|m<bits>> <json 0/1> <store 0/1>`
@@ -9,14 +10,28 @@ implementation did: negotiated ∈ SDK-supported ∧ the (wrapped) transport sup
 2026-07-28 over SSE / stateful HTTP ∧ = requested when mutually supported ∧ the session lists and
 calls tools ∧ connect does not fail when the requested version is mutually supported or a legacy
 version is served (fallback).  F10's shape has its own clause.
+
+`step <req> <kind> <subset> <json> <store> <hold>`: the same, but all steps of a case are connections
+to ONE Server value; the model's answer is history-independent (`seq_step_history_independent`), the
+monitor is the same property for THIS step's transport (its clause then says how many connections
+the Server had served before).
+
+`foreign <req> <mem|http> <disc> <init>`: the SDK client against a peer that is not this SDK (see the
+harness for the token grammar).  Model: `connectPeer`; monitor: `peerVerdict` (proved to accept the
+model's outcome for every peer: `peerVerdict_model`) plus "the session lists and calls tools".
 -/
 namespace Negotiate
 open Proto Generated.Negotiate
 
-/-- Go's `httpguts.ValidHeaderFieldValue` plus "unchanged by header trimming". -/
+/-- Go's `httpguts.ValidHeaderFieldValue`: the request can be sent at all. -/
+def headerValid (s : String) : Bool :=
+  s.toUTF8.toList.all (fun b => (b ≥ 0x20 && b != 0x7f) || b == 0x09)
+
+/-- `headerValid` plus "unchanged by header trimming" (the SDK server compares the header with the
+body's `_meta` version; a foreign peer is not assumed to). -/
 def headerSafe (s : String) : Bool :=
   let bs := s.toUTF8.toList
-  bs.all (fun b => (b ≥ 0x20 && b != 0x7f) || b == 0x09) &&
+  headerValid s &&
     (match bs.head? with | some b => b != 0x20 && b != 0x09 | none => true) &&
     (match bs.getLast? with | some b => b != 0x20 && b != 0x09 | none => true)
 
@@ -31,6 +46,7 @@ def parseKind : String → Option TKind
   | "sse" => some .sse
   | "stateful" => some .stateful
   | "stateless" => some .stateless
+  | "statefulnoid" => some .stateful   -- stateful, the server assigns no session IDs: same negotiation
   | _ => none
 
 def parseSubset (t : String) : Option (Option (List String)) :=
@@ -76,19 +92,79 @@ def monitor (req : Option String) (S : Setup) (impl : String) : Option String :=
     else none
   | _ => some "C07: connect crashed or produced no outcome"
 
-def engine : Engine Unit where
-  init := ()
-  step _ toks impl :=
+/-- `<hex>.<hex>…` or `-`. -/
+def parseList (t : String) : Option (List String) :=
+  if t == "-" then some [] else (t.splitOn ".").mapM hexToString
+
+/-- The peer's answer to server/discover, as a function of the version the probe names. -/
+def parseDisc (http : Bool) (t : String) : Option (String → DiscResp) :=
+  let rest := (t.drop 1).toString
+  let wire (f : String → DiscResp) : String → DiscResp :=
+    fun v => if http && !headerValid v then .unavailable else f v
+  if t.startsWith "h" then (if http then some (fun _ => .unavailable) else none)
+  else if t.startsWith "e" then some (fun _ => .unavailable)
+  else if t.startsWith "u" || (t.startsWith "U" && http) then
+    (parseList rest).map fun l => wire fun v => if l.contains v then .result l else .unsupported l
+  else if t.startsWith "r" then (parseList rest).map fun l => wire fun _ => .result l
+  else if t.startsWith "n" then (parseList rest).map fun l => wire fun _ => .unsupported l
+  else if t.startsWith "x" then
+    match rest.splitOn ":" with
+    | [a, b] =>
+      match parseList a, parseList b with
+      | some l, some res => some (wire fun v => if l.contains v then .result res else .unsupported l)
+      | _, _ => none
+    | _ => none
+  else none
+
+def parseInit (t : String) : Option (String → Option String) :=
+  if t == "echo" then some (fun iv => some iv)
+  else if t == "err" then some (fun _ => none)
+  else if t.startsWith "a" then (hexToString (t.drop 1).toString).map fun v => fun _ => some v
+  else none
+
+def monitorPeer (req : Option String) (P : Peer) (impl : String) : Option String :=
+  match words impl with
+  | ["ok", vh, l, c] =>
+    match hexToString vh with
+    | none => some "C07: unreadable negotiated version"
+    | some v =>
+      match peerVerdict req P (.negotiated v) with
+      | some cl => some cl
+      | none => if l != "ok" || c != "ok" then some "C07: connected session cannot list and call tools" else none
+  | ["error"] => peerVerdict req P .error
+  | _ => some "C07: connect crashed or produced no outcome"
+
+/-- State: the number of connections the case's Server has served so far. -/
+def engine : Engine Nat where
+  init := 0
+  step n toks impl :=
     match toks with
-    | ["reset"] => ((), { model := "ok" })
+    | ["reset"] => (0, { model := "ok" })
     | ["connect", r, k, sub, j, st] =>
       match parseReq r, parseKind k, parseSubset sub with
       | some req, some kind, some subset =>
         let S : Setup := { kind := kind, subset := subset, json := j == "1", store := st == "1" }
         let out := connect (wireFor kind) req S
-        ((), { model := showOutcome out, violated := monitor req S impl })
-      | _, _, _ => ((), { model := "bad-op" })
-    | _ => ((), { model := "bad-op" })
+        (n, { model := showOutcome out, violated := monitor req S impl })
+      | _, _, _ => (n, { model := "bad-op" })
+    | ["step", r, k, sub, j, st, _hold] =>
+      match parseReq r, parseKind k, parseSubset sub with
+      | some req, some kind, some subset =>
+        let S : Setup := { kind := kind, subset := subset, json := j == "1", store := st == "1" }
+        let out := ((Srv.mk []).step wireFor ⟨req, S⟩).2
+        let v := (monitor req S impl).map fun cl =>
+          if n == 0 then cl else s!"{cl} [connection #{n + 1} to one Server value: the version must fit THIS connection's transport, whatever the Server served before]"
+        (n + 1, { model := showOutcome out, violated := v })
+      | _, _, _ => (n, { model := "bad-op" })
+    | ["foreign", r, carrier, d, i] =>
+      let http := carrier == "http"
+      if carrier != "http" && carrier != "mem" then (n, { model := "bad-op" }) else
+      match parseReq r, parseDisc http d, parseInit i with
+      | some req, some disc, some ini =>
+        let P : Peer := { discover := disc, init := ini }
+        (n, { model := showOutcome (connectPeer req P), violated := monitorPeer req P impl })
+      | _, _, _ => (n, { model := "bad-op" })
+    | _ => (n, { model := "bad-op" })
 
 end Negotiate
 
